@@ -152,6 +152,30 @@ claim("C07", "proof",
       "Lean kernel + standard axioms; the harness that executes the real functions; the algebra-to-MvPolynomial link is not formalised.",
       "Lean 4 proof over tables regenerated from the running code + annotation correspondence + fixpoint oracle", "5 (C07)")
 
+claim("C06", "proof",
+      "Lean 4 theorems (Props/C06.lean, corollaries of C16): for every prime p > 2 and all operands the operator transfer of value "
+      "propagation yields exactly the field element / truth value Circom defines (arithmetic, bitwise, comparisons on signed "
+      "representatives, boolean connectives, negation, 256-bit complement), yields a value for the partial operators (/, \\, %, <<, >>) only "
+      "where the specification defines one and then that value, and never claims anything from an unknown operand. PARTIAL: the lifting to "
+      "whole expressions and all execution paths is not yet a Lean theorem; it is decided per run by (L2) node-by-node equality of the real "
+      "value annotations with the Lean operational propagation model for each of the three primes and (L1) a reference interpreter executing "
+      "the same SSA CFGs under random valuations (every value an annotated node takes must be the claimed constant; invalid executions — "
+      "division by zero, failed assert, signal assigned twice — carry no obligation). Known finding F-C06-phi (hypothesis PhiComplete) is "
+      "reported as KNOWN-FINDING; any other false claim is a violation.",
+      "Lean kernel + standard axioms; the interpreter is a Python search oracle; literals >= p are outside the property's range and skipped.",
+      "Lean 4 proof (operator transfer = field semantics) + annotation correspondence + reference-interpreter oracle", "5 (C06)")
+claim("C20", "proof",
+      "Lean 4 theorems (Props/C20.lean) on the operational propagation model, whose pass budget is the point at which the time box fires: the "
+      "loops are total for every budget, the zero budget leaves the CFG un-annotated, and once a pass changes nothing every larger budget "
+      "(in particular the untimed run) returns exactly the same annotated blocks, so the early-stop states are the prefixes of one "
+      "deterministic sequence. PARTIAL: that every prefix state satisfies C06/C07 is decided per run with the verif pass-budget hook: for "
+      "every definition and every budget k up to the fixpoint, values and degrees independently, real annotations after k passes = model "
+      "(L2); each prefix state passes the C06 interpreter oracle and the C07 least-fixpoint oracle, and claims are monotone in k on a fixed "
+      "statement order (L1).",
+      "Lean kernel + standard axioms; the wall-clock trigger is replaced by a deterministic pass budget (hook); soundness of prefix states is "
+      "checked by oracles, not proved.",
+      "Lean 4 proof (prefix structure of the loops) + prefix-by-prefix correspondence under a pass-budget hook + oracles", "5 (C20)")
+
 ALL = ["C%02d" % i for i in range(1, 21)]
 def main():
     checks = []
